@@ -1451,7 +1451,12 @@ func (db *DB) checkpointIfNeeded(ctx context.Context, exec *syncExecutor, origWA
 	}
 
 	// Priority 2: Regular checkpoint at min threshold (PASSIVE mode)
-	if newWALSize >= calcWALSize(uint32(db.pageSize), uint32(db.MinCheckpointPageN)) {
+	// A WAL holding a single frame is the steady state our own checkpoint leaves
+	// behind (the _litestream_seq bump): with a threshold of one page, checkpointing
+	// it again would only write the next bookkeeping frame and another LTX file on
+	// every sync of an idle database.
+	if newWALSize >= calcWALSize(uint32(db.pageSize), uint32(db.MinCheckpointPageN)) &&
+		newWALSize > calcWALSize(uint32(db.pageSize), 1) {
 		if _, err := db.checkpointWithExecutor(ctx, CheckpointModePassive, exec); err != nil {
 			// PASSIVE checkpoints can fail with SQLITE_BUSY when database is locked.
 			// This is expected behavior and not an error - just log and continue.
